@@ -25,12 +25,12 @@ var provideInvalidCauses = []string{
 var decorateInvalidCauses = []string{
 	"nonfunc", "nil", "typednil", "in-result", "out-param", "ptr-in-param", "ptr-out-result", "bad-optional",
 	"group-single-value", "unexported-in-field", "group-optional", "flatten-param", "embed-ptr-in",
-	"decorate-flatten-group",
+	"decorate-flatten-group", "group-nonslice-param", "name-on-group-param", "bad-ignore-unexported",
 }
 
 var invokeInvalidCauses = []string{
 	"nonfunc", "nil", "typednil", "out-param", "ptr-in-param", "bad-optional", "unexported-in-field",
-	"group-optional", "flatten-param", "group-nonslice-param", "embed-ptr-in", "bad-ignore-unexported",
+	"group-optional", "flatten-param", "group-nonslice-param", "embed-ptr-in", "bad-ignore-unexported", "name-on-group-param",
 }
 
 // S0 is a named slice type with a method, implementing I0.
